@@ -221,8 +221,9 @@ func main() {
 			"solver_queries":        float64(agg.SolverQueries), "solver_sat": float64(agg.SolverSat),
 			"solver_unsat": float64(agg.SolverUnsat), "solver_unknown": float64(agg.SolverUnknown),
 			"solver_errors": float64(agg.SolverErrors), "solver_time_s": agg.SolverTime.Seconds(),
-			"query_cache_hits": float64(agg.CacheHits),
-			"cross_checks":     float64(agg.Cross), "cross_disagreements": float64(agg.CrossDisagree),
+			"query_cache_hits":            float64(agg.CacheHits),
+			"cross_checks_without_answer": float64(agg.CrossNoAnswer),
+			"cross_checks":                float64(agg.Cross), "cross_disagreements": float64(agg.CrossDisagree),
 		},
 		Aux: map[string]float64{},
 	}
